@@ -10,7 +10,7 @@ REQUIRED_THEOREMS = ['Props.C20.fit_trace', 'Props.C20.steps_count', 'Props.C20.
 RULE = ('grid epochs 0..3 x train batches 0..3 x validation (none, 0, 1, 2 batches) x both callbacks x evaluator '
         '(off / 3 label modes) x initial training flag x initial grad mode x initial module tree consistent / with submodules switched on their own, run on the real Trainer with a model holding '
         'BatchNorm and Dropout, recording wrappers around model / optimizer / engine / Tensor.backward; quick samples the '
-        'grid, thorough enumerates it. Non-trivial: at least one epoch and one batch. Trainer.test under both gradient modes, with the Trainer constructed under either mode. Plus accuracy cases in 3 modes.')
+        'grid, thorough enumerates it. Non-trivial: at least one epoch and one batch. loaders partly iterated before fit or peeked at inside the callbacks; Trainer.test under both gradient modes, with the Trainer constructed under either mode. Plus accuracy cases in 3 modes.')
 EXHAUSTIVE = {'quick': False, 'thorough': True}
 ASSUMPTIONS = ['pkbar progress bar is stubbed (harness/stubs/pkbar.py)']
 TRUSTED_BASE = ['harness/props/c20.py (recording wrappers, canonicalisation)']
@@ -34,6 +34,11 @@ def cases(rng, tier):
     for c in list(grid):
         if c['e'] >= 1 and (c['ct'], c['cv']) == (0, 0):
             grid.append(dict(c, mix=1 + (c['nt'] + (c['nv'] or 0)) % 3))
+    # loaders that were partly iterated before fit (a peek at the first batch), or are peeked at inside the callbacks
+    for c in list(grid):
+        if c['e'] >= 1 and c['nt'] >= 2 and c['g0'] == 1 and c['ev'] is None and 'mix' not in c:
+            if (c['ct'], c['cv']) == (1, 1): grid.append(dict(c, peek=2))
+            if (c['ct'], c['cv']) == (0, 0): grid.append(dict(c, peek=1))
     # the Trainer object constructed under another gradient mode than the one it is used in
     for c in list(grid):
         if c['e'] >= 1 and c['nv'] and (c['ct'], c['cv'], c['ev']) == (0, 0, None) and 'mix' not in c:
@@ -155,9 +160,13 @@ def _run_fit(c):
     def snap():
         bn = model.submodules()[1]
         return [p.data.copy() for p in model.parameters()] + [bn.running_mean.data.copy(), bn.running_var.data.copy(), np.array(bn.num_batches_tracked)]
-    def cbT(m, l): trace.append('ct')
+    def cbT(m, l):
+        trace.append('ct')
+        if c.get('peek') == 2: next(iter(l), None)          # the callback looks at a batch of the loader it is handed
+    def cbV_peek(l):
+        if c.get('peek') == 2: next(iter(l), None)
     def cbV(m, l):
-        trace.append('cv')
+        trace.append('cv'); cbV_peek(l)
     orig_bw = sg.Tensor.backward
     def bw(self, grad=None):
         trace.append('b'); return orig_bw(self, grad)
@@ -188,6 +197,10 @@ def _run_fit(c):
     if mix:
         for j in ([1, 2], [0, 3], [2])[mix - 1]:
             model.submodules()[j].training = not bool(c['tr0'])
+    if c.get('peek') == 1:                                   # the caller looked at the first batches before handing the loaders over
+        next(iter(tl), None)
+        if vl is not None:
+            it_ = iter(vl); next(it_, None); next(it_, None)
     g_before = tm.gradient__
     tm.gradient__ = bool(c['g0'])
     sg.Tensor.backward = bw
